@@ -243,30 +243,54 @@ def c07_oracle(base, spec, unedited, out):
 
 # ---- C10 -----------------------------------------------------------------------------------------------------------------
 
-PASSTHROUGH_EXEMPT = {b"STR ", b"MRGN", b"TRIG", b"UNIS", b"UNIx", b"UPRP", b"UPUS", b"SWNM", b"WAV "}
+PASSTHROUGH_EXEMPT = {b"STR ", b"MRGN", b"TRIG", b"UNIS", b"UNIx", b"UPRP", b"SWNM", b"WAV "}
 
 
-def c10_oracle(base, out):
+def c10_oracle(base, out, keys=None):
+    """the property on one (input map, saved map) pair: None, or what is violated.  Differences that a RECORDED finding
+    fully explains (by the shape of this very input) are not reported; their keys are added to `keys`."""
+    keys = keys if keys is not None else set()
     cb, co = SC.chunks_of(base), SC.chunks_of(out)
+    names = [n for n, _ in cb]
     for i, (n, p) in enumerate(cb):
         if n in PASSTHROUGH_EXEMPT:
             continue
         if i >= len(co) or co[i] != (n, p):
+            if n == b"UPUS" and i < len(co) and co[i][0] == b"UPUS" and len(p) == 64:
+                # UPUS is a recognised section without a rich model; it is recomputed from the unit-property slots
+                up = [q for m, q in co if m == b"UPRP"]
+                if up and len(up[-1]) == 1280 and len(co[i][1]) == 64 and \
+                        all(co[i][1][k] in (0, 1) and (co[i][1][k] == 1 or not any(up[-1][20 * k:20 * k + 20])) for k in range(64)):
+                    keys.add("upus-recomputed")
+                    continue
             return f"section {i} {n!r} (no rich model) was moved or changed"
-    # raw entries of pre-existing triggers: byte-identical and in the same rank among the non-empty entries
+    # unmodelled entries of pre-existing triggers: byte-identical and AT THEIR POSITION
     tables = SC.spec_tables()
     tb = [p for n, p in cb if n == b"TRIG"]
     to = [p for n, p in co if n == b"TRIG"]
+    split_edit = len(tb) > 1 and any(len(x) != len(y) for x, y in zip(tb, to))
     for si, (pb, po) in enumerate(zip(tb, to)):
         for ti in range(len(pb) // 2400):
             if ti >= len(po) // 2400:
+                if split_edit:
+                    keys.add("split-trig-sections")
+                    break
                 return "a pre-existing trigger disappeared"
             a = S.spec_parse(S.TRIGGER, pb, ti * 2400)[0]
             b = S.spec_parse(S.TRIGGER, po, ti * 2400)[0]
             for part, kind, idf in (("_conditions", "conditions", "_condition_id"), ("_actions", "actions", "_action_id")):
-                ra = [(rank, r) for rank, r in enumerate([r for r in a[part] if r[idf] != 0]) if r[idf] not in tables[kind]]
-                nb_ = [r for r in b[part] if r[idf] != 0]
-                for rank, r in ra:
-                    if rank >= len(nb_) or nb_[rank] != r:
-                        return f"TRIG {si} trigger {ti}: unsupported/unknown {kind[:-1]} (type {r[idf]}) changed or moved"
+                for pos, r in enumerate(a[part]):
+                    if r[idf] == 0 or r[idf] in tables[kind]:
+                        continue
+                    if pos < len(b[part]) and b[part][pos] == r:
+                        continue
+                    if split_edit and si > 0:
+                        keys.add("split-trig-sections")
+                        continue
+                    # moved up because an empty slot in front of it was dropped, content and order intact?
+                    gaps = sum(1 for q in a[part][:pos] if q[idf] == 0)
+                    if gaps and pos - gaps < len(b[part]) and b[part][pos - gaps] == r:
+                        keys.add("interior-gap-compacted")
+                        continue
+                    return f"TRIG {si} trigger {ti}: unsupported/unknown {kind[:-1]} (type {r[idf]}) at position {pos} changed or moved"
     return None
